@@ -21,6 +21,7 @@ Rows9 == {9}
 Rows3 == {3}
 PatsAll == {"none", "all", "first", "last", "alt"}
 PatsFew == {"none", "alt"}
+PatsAlt == {"alt"}
 ValsAll == {"perm", "const", "asc"}
 ValsPerm == {"perm"}
 V12 == {1, 2}
